@@ -30,6 +30,41 @@ NOT_DECIDED = "numeric component results; every mask's index arithmetic beyond t
 ASSUMPTIONS = ["vector sizes 2..4 (spellable types): a vector's shape (n,1) never matches the inner dimension 1 of another vector"]
 
 
+def _construct_loops(stmts):
+    """Classify every loop over `<instr>.Values` in the CONSTRUCT_PRIMITIVE arm:
+    'flatten' (list elements extend the accumulator, others are appended),
+    'rows' (each element value is appended), 'other'."""
+    kinds = []
+    for n in ast.walk(ast.Module(body=stmts, type_ignores=[])):
+        if not (isinstance(n, ast.For) and unparse(n.iter).endswith(".Values")):
+            continue
+        tv = unparse(n.target)
+        elem_txt = f"localScope[{tv}.Reference]"
+        names = {t.id for s in n.body if isinstance(s, ast.Assign) and unparse(s.value) == elem_txt for t in s.targets if isinstance(t, ast.Name)}
+
+        def is_elem(e):
+            return (isinstance(e, ast.Name) and e.id in names) or unparse(e) == elem_txt
+
+        def appends(ss):
+            return any(isinstance(c, ast.Call) and last_attr(c) == "append" and len(c.args) == 1 and is_elem(c.args[0]) for s in ss for c in ast.walk(s))
+
+        def extends(ss):
+            return any((isinstance(c, ast.Call) and last_attr(c) == "extend" and len(c.args) == 1 and is_elem(c.args[0])) or
+                       (isinstance(c, ast.AugAssign) and isinstance(c.op, ast.Add) and is_elem(c.value)) for s in ss for c in ast.walk(s))
+
+        if any(isinstance(x, (ast.Continue, ast.Break)) for x in ast.walk(n)):
+            kinds.append("other")
+            continue
+        ifs = [s for s in n.body if isinstance(s, ast.If) and isinstance(s.test, ast.Call) and last_attr(s.test) == "isinstance" and len(s.test.args) == 2
+               and is_elem(s.test.args[0]) and unparse(s.test.args[1]) == "list"]
+        if ifs:
+            kinds.append("flatten" if extends(ifs[0].body) and appends(ifs[0].orelse) and not appends(ifs[0].body) else "other")
+        else:
+            top = [s for s in n.body if not isinstance(s, (ast.If, ast.For, ast.While))]
+            kinds.append("rows" if appends(top) else "other")
+    return kinds
+
+
 def run(model, col, tier):
     vm = VMModel(model)
     lv = model.cls(LOWER, "LowerToIRVisitor")
@@ -229,12 +264,15 @@ def run(model, col, tier):
     # ---------------- R04.7 ------------------------------------------------------
     cp = vm.arm("CONSTRUCT_PRIMITIVE")
     s = " ".join(unparse(ast.Module(body=cp.body, type_ignores=[])).split())
-    col.check("for value in instruction.Values" in s and "var += value" in s and "var.append(value)" in s and "isinstance(value, list)" in s, "R04.7", f"{VM}::__Execute CONSTRUCT_PRIMITIVE vector",
+    kinds = _construct_loops(cp.body)
+    col.check("flatten" in kinds, "R04.7", f"{VM}::__Execute CONSTRUCT_PRIMITIVE vector",
               "arguments are flattened in order: vectors extend, scalars append", "vector construction does not flatten its arguments in order", VM, cp.case)
-    col.check(s.count("for value in instruction.Values") >= 2 and "assert isinstance(value, list)" in s, "R04.7", f"{VM}::__Execute CONSTRUCT_PRIMITIVE matrix", "rows are appended in order", None, VM, cp.case)
+    col.check("rows" in kinds and "other" not in kinds, "R04.7", f"{VM}::__Execute CONSTRUCT_PRIMITIVE matrix", "rows are appended in order", None, VM, cp.case)
     vc = lv.own_method("v_ConstructPrimitiveExpression")
-    vals = find_assign(vc, "values")
-    col.check(bool(vals) and isinstance(vals[0], ast.ListComp) and unparse(vals[0].generators[0].iter) == vc.args.args[1].arg and not vals[0].generators[0].ifs, "R04.7", f"{LOWER}::v_ConstructPrimitiveExpression argument order",
+    from ..sem import visits_each_in_order
+
+    np_ = vc.args.args[1].arg
+    col.check(visits_each_in_order(model, lv, vc, {np_, f"{np_}.GetArguments()", f"{np_}.children"}), "R04.7", f"{LOWER}::v_ConstructPrimitiveExpression argument order",
               "arguments are visited in source order", "constructor arguments are not lowered in source order", LOWER, vc)
     # constructor arguments are converted to the result's component type whenever their component type differs
     from ..sem import local_env as _lenv, rtext as _rtext
